@@ -10,7 +10,7 @@ def strip_casts(ex):
     while True:
         if ex[0] == "cast" and ex[3] in ("IntToInt",):
             ex = ex[2]
-        elif ex[0] in ("ref", "deref", "mut"):
+        elif ex[0] in ("ref", "deref"):
             ex = ex[1]
         else:
             return ex
@@ -60,13 +60,20 @@ def deep_strip(ex):
     if k == "index":
         return ("index", deep_strip(ex[1]), deep_strip(ex[2]))
     if k == "call":
-        return ("call", ex[1], ex[2], tuple(deep_strip(a) for a in ex[3]), "")
+        args = tuple(deep_strip(a) for a in ex[3])
+        if X.last_seg(ex[1]) in ("saturating_sub", "wrapping_sub") and len(args) == 2:
+            return ("bin", "Sub", args[0], args[1])
+        if X.last_seg(ex[1]) in ("saturating_add", "wrapping_add") and len(args) == 2:
+            return ("bin", "Add", args[0], args[1])
+        return ("call", ex[1], ex[2], args, "")
     if k == "unwrap_or":
         return ("unwrap_or", deep_strip(ex[1]), deep_strip(ex[2]))
     if k == "phi":
         return X.mk_phi(tuple(deep_strip(a) for a in ex[1]))
     if k == "try":
         return ("try", deep_strip(ex[1]))
+    if k == "mut":
+        return ("mut", deep_strip(ex[1]))
     if k == "agg":
         return ("agg", ex[1], ex[2], ex[3], tuple((n, deep_strip(e)) for n, e in ex[4]))
     return ex
@@ -76,7 +83,8 @@ class Cmp:
     """normalised comparison: `lhs - rhs` changes truth value between boundary-1 and boundary
     (kind 'b'), or is tested for equality with `boundary` (kind 'eq')."""
 
-    __slots__ = ("lhs", "rhs", "kind", "boundary", "loc", "bb", "raw", "lex", "rex")
+    __slots__ = ("lhs", "rhs", "kind", "boundary", "loc", "bb", "raw", "lex", "rex", "validating", "switch_bb",
+                 "op", "dest")
 
     def key(self):
         return (self.lhs, self.rhs, self.kind, self.boundary)
@@ -121,19 +129,82 @@ def normalise_cmp(op, a, b, loc="?", bb=None):
     return c
 
 
-def comparisons(body, O):
-    """all integer comparisons computed in the body (rvalues), normalised"""
+def ok_reaching(body):
+    """blocks from which a return of something other than an error is reachable.
+    An assignment to the return place is an *error* assignment when it builds `Result::Err`/`None`-free
+    residuals: `_0 = Err(..)` or `_0 = from_residual(..)`; every other assignment counts as success."""
+    ok_blocks = set()
+    for l_defs in (body.defs.get(0, ()),):
+        for d in l_defs:
+            if d[2] == "assign":
+                rv = d[3]
+                if rv["k"] == "agg" and rv.get("ak") == "adt" and rv.get("variant") == "Err":
+                    continue
+                ok_blocks.add(d[0])
+            elif d[2] == "call":
+                cs = d[3]
+                if cs.name == "from_residual":
+                    continue
+                ok_blocks.add(d[0])
+            else:
+                ok_blocks.add(d[0])
+    if not body.defs.get(0):
+        return set(body.reachable)
+    # backward reachability
+    out = set(ok_blocks)
+    work = list(ok_blocks)
+    while work:
+        b = work.pop()
+        for p in body.pred[b]:
+            if p not in out:
+                out.add(p)
+                work.append(p)
+    return out
+
+
+def assert_cond_locals(body):
+    out = set()
+    for bb, t in body.asserts():
+        c = t["cond"]
+        if c["k"] in ("copy", "move") and not c["pl"]["p"]:
+            out.add(c["pl"]["l"])
+    return out
+
+
+def comparisons(body, O, include_compiler_checks=False):
+    """all integer comparisons computed in the body (rvalues), normalised.
+    `validating` is True when the comparison directly controls a switch one of whose successors can only
+    reach error returns."""
     out = []
+    okr = None
+    acl = assert_cond_locals(body)
     for bb, j, s in body.all_statements():
         if s["k"] != "assign":
             continue
         rv = s["rv"]
         if rv["k"] == "bin" and rv["op"] in X.CMP_OPS:
+            dest = s["pl"]["l"] if not s["pl"]["p"] else None
+            if dest in acl and not include_compiler_checks:
+                continue
             a = O.operand(rv["l"], bb, j)
             b = O.operand(rv["r"], bb, j)
             c = normalise_cmp(rv["op"], a, b, span_loc(s["sp"]), bb)
-            if c is not None:
-                out.append(c)
+            if c is None:
+                continue
+            c.op = rv["op"]
+            c.dest = dest
+            c.validating = False
+            c.switch_bb = None
+            t = body.blocks[bb]["term"]
+            if dest is not None and t and t["k"] == "switch" and t["op"]["k"] in ("copy", "move") \
+                    and t["op"]["pl"]["l"] == dest and not t["op"]["pl"]["p"]:
+                c.switch_bb = bb
+                if okr is None:
+                    okr = ok_reaching(body)
+                succ = body.succ[bb]
+                if any(sx not in okr for sx in succ):
+                    c.validating = True
+            out.append(c)
     return out
 
 
@@ -155,4 +226,22 @@ def tests(body, O):
     for bb, t in body.switches():
         ex = O.switch_cond(bb)
         out.append((rd(ex), bb, span_loc(t["sp"])))
+    return out
+
+
+def const_ops(body, O):
+    """arithmetic with one literal operand: {(op, constant)} -> [locations]"""
+    out = {}
+    for bb, j, s in body.all_statements():
+        if s["k"] != "assign" or s["rv"]["k"] != "bin":
+            continue
+        rv = s["rv"]
+        op = X.norm_op(rv["op"])
+        if op in X.CMP_OPS:
+            continue
+        a = strip_casts(O.operand(rv["l"], bb, j))
+        b = strip_casts(O.operand(rv["r"], bb, j))
+        for side, other, pos in ((a, b, "l"), (b, a, "r")):
+            if side[0] == "const" and other[0] != "const":
+                out.setdefault((op, side[1], pos), []).append(span_loc(s["sp"]))
     return out
